@@ -2,6 +2,6 @@
 EXTENDS ConcurrencyI, TLC
 \* the last event is output only (OnceOnlyI reads it on the transition itself)
 View == <<now, arr, n, areq, amem, reg, pc, early, epc, efound, emem, gpc,
-          IF gpc = "idle" THEN <<>> ELSE gsnap, glen, gi, galias, gitem, gcDue>>
+          IF gpc = "idle" THEN <<>> ELSE gsnap, glen, gi, galias, gitem, gcDue, nrestart, admAt>>
 Sym == Permutations(Txn)
 =============================================================================
